@@ -82,6 +82,11 @@ template<class T> void vb_ptr_ops(rlbox_sandbox<SBX>& s)
   (void)p1; (void)q; (void)r; (void)q2; (void)q3; (void)q4; (void)q5; (void)q6; (void)e; (void)e2; (void)e3; (void)a; (void)d; (void)ar; (void)ce; (void)cd; (void)car;
   tainted<T, SBX> v = *p; *p = v; p[1] = v; *p = p[1]; v = p[2];
   { T plainv{}; *p = plainv; p[1] = T(1); if constexpr (std::is_integral_v<T>) { *p = 1; } v = plainv; }
+  if constexpr (std::is_integral_v<T> && !std::is_same_v<T, bool>) {
+    // one sandbox object assigned to another of a DIFFERENT integer type (tainted_volatile <- tainted_volatile)
+    auto pll = s.template malloc_in_sandbox<long long>(); auto psh = s.template malloc_in_sandbox<short>(); auto pul = s.template malloc_in_sandbox<unsigned long>();
+    *pll = *p; *p = *psh; *pul = *p; *p = *pll;
+  }
   tainted<T*, SBX> ad = &d; (void)ad;
   auto c = p.copy_and_verify([](std::unique_ptr<T> x) { return x ? *x : T{}; });
   auto rg = p.copy_and_verify_range([](std::unique_ptr<T[]> x) { return x; }, 3);
